@@ -107,6 +107,9 @@ def gen_rows(rng, sheet, page, lang, big):
             nsub = rng.choice([2, 2, 3, 5, 12])
             if big and rng.random() < 0.04:
                 nsub = rng.choice([100, 300])
+            if big and rid == sheet["ids"][page][0] and rng.random() < 0.2:
+                # a row whose sub-row area spans more than 64 KiB (the sub-row index times the record size needs more than 16 bits)
+                nsub = min(6000, 65536 // (sheet["data_offset"] + 2) + rng.choice([1, 2, 40]))
         else:
             nsub = 1
         subs = [[gen_value(rng, t, "") for (t, o) in sheet["cols"]] for _ in range(nsub)]
@@ -167,10 +170,10 @@ def tname(t):
 
 
 def sbucket(n):
-    for b in (1, 2, 5, 12, 100):
+    for b in (1, 2, 5, 12, 100, 300):
         if n <= b:
             return "<=%d" % b
-    return ">100"
+    return ">300"
 
 
 def check_exh(ctx, got, sheet, files, via):
